@@ -127,6 +127,12 @@ func (b *BFT) CheckProposerMessage(x *Message, p *validateMessageParams) (isPart
 	if isPartialQC {
 		return
 	}
+	// the certificate must be of the vote phase that precedes this leader message (ELECTION_VOTE justifies PROPOSE,
+	// PROPOSE_VOTE justifies PRECOMMIT, PRECOMMIT_VOTE justifies COMMIT) - any other +2/3 certificate for the same proposal,
+	// e.g. the election certificate re-sent inside PRECOMMIT or the PROPOSE_VOTE certificate re-sent inside COMMIT, proves nothing here
+	if x.Qc.Header.Phase != x.Header.Phase-1 {
+		return false, lib.ErrWrongPhase()
+	}
 	// validate header height, qc height, and committee height
 	// NOTE: these height checks are correct even when sending a highQC as the header is updated when using a highQC
 	if x.Header.Height != p.height {
